@@ -39,6 +39,10 @@ BaseFaults == {
   [n |-> "s-goto-nolabel", stage |-> "parse", fams |-> {"SyntaxError"}, form |-> "simple"],
   [n |-> "s-open-call", stage |-> "parse", fams |-> {"SyntaxError"}, form |-> "simple"],
   [n |-> "s-bad-assign", stage |-> "parse", fams |-> {"SyntaxError"}, form |-> "simple"],
+  \* a string literal that is not closed runs to the end of its line: nothing else can stand behind it there ("toeol")
+  [n |-> "s-open-quote", stage |-> "parse", fams |-> {"SyntaxError"}, form |-> "toeol"],
+  [n |-> "s-open-quote-2", stage |-> "parse", fams |-> {"SyntaxError"}, form |-> "toeol"],
+  [n |-> "s-open-quote-if", stage |-> "parse", fams |-> {"SyntaxError"}, form |-> "toeol"],
   [n |-> "t-assign-str", stage |-> "lint", fams |-> {"TypeMismatch", "ArgumentTypeMismatch"}, form |-> "simple"],
   [n |-> "t-assign-num", stage |-> "lint", fams |-> {"TypeMismatch", "ArgumentTypeMismatch"}, form |-> "simple"],
   [n |-> "t-binary", stage |-> "lint", fams |-> {"TypeMismatch", "ArgumentTypeMismatch"}, form |-> "simple"],
@@ -168,8 +172,8 @@ PickLayout ==
   /\ \E bl \in Blank, cm \in Cmt, j \in Joined :
         c' = c @@ [blank |-> bl, cmt |-> cm,
                    before |-> IF c.form = "inner" THEN 0 ELSE j[1],
-                   after |-> IF c.form \in {"inner", "header"} THEN 0 ELSE j[2],
-                   trail |-> j[3]]
+                   after |-> IF c.form \in {"inner", "header", "toeol"} THEN 0 ELSE j[2],
+                   trail |-> IF c.form = "toeol" THEN 0 ELSE j[3]]
   /\ phase' = "file"
 
 \* properties of the whole file
